@@ -1,5 +1,340 @@
-use vf_explore::Value;
+//! C08 (thorough): the COLT forest (`lattices::ght::colt`, `ColtType!(u8,u8,u8)`): BFS over histories
+//! of `insert` (into the first, height-0 trie) and `ColtGet::get` paths of length 1..=3.
+//!
+//! Oracle (no more than the statement + the forest's documented purpose):
+//!   1. conservation — the multiset union of the four tries' `recursive_iter` is exactly the multiset
+//!      of inserted rows (the leaves are column multisets: duplicates are kept);
+//!   2. prefix lookup — the nodes returned by `get(k1)[.get(k2)[.get(k3)]]` together hold exactly the
+//!      inserted rows with that prefix;
+//!   3. well-formedness — inside every trie each row sits under its own key path (`GhtGet` walk), and
+//!      `contains` agrees with the trie's own rows.
+//! Which trie a row currently lives in (lazy forcing) is NOT judged.
+use std::collections::{BTreeMap, HashMap};
+
+use lattices::ColtType;
+use lattices::ght::colt::ColtGet;
+use lattices::ght::{GeneralizedHashTrieNode, GhtGet};
+use variadics::{VariadicExt, var_args, var_expr, var_type};
+use vf_explore::{Stats, Value, catch, json};
+
+use crate::c08::{Reveal, Row, all_rows};
 use crate::classes::{Acc, Classes};
+
 pub const NAME: &str = "colt(u8,u8,u8)";
-pub fn run(_idx: u64, _threads: usize) -> Acc { Acc::new() }
-pub fn replay_case(_case: &Value, _verbose: bool) -> Classes { Classes::new() }
+type V3 = var_type!(u8, u8, u8);
+pub type Forest = ColtType!(u8, u8, u8);
+pub type MModel = BTreeMap<Row, usize>;
+
+static K: [u8; 3] = [0, 1, 2];
+
+fn un(r: var_type!(&u8, &u8, &u8)) -> Row {
+    let var_args!(a, b, c) = r;
+    (*a, *b, *c)
+}
+fn rows_of<N: GeneralizedHashTrieNode<Schema = V3>>(n: &N) -> Vec<Row> {
+    n.recursive_iter().map(un).collect()
+}
+
+#[derive(Clone, Debug, PartialEq, Eq, Hash)]
+pub enum Op {
+    Insert(Row),
+    Get(Vec<u8>),
+}
+fn op_json(op: &Op) -> Value {
+    match op {
+        Op::Insert(r) => json!({"insert": [r.0, r.1, r.2]}),
+        Op::Get(p) => json!({"get": p}),
+    }
+}
+fn op_of(v: &Value) -> Op {
+    if let Some(r) = v.get("insert") {
+        let a = r.as_array().unwrap();
+        Op::Insert((a[0].as_u64().unwrap() as u8, a[1].as_u64().unwrap() as u8, a[2].as_u64().unwrap() as u8))
+    } else {
+        Op::Get(v["get"].as_array().unwrap().iter().map(|x| x.as_u64().unwrap() as u8).collect())
+    }
+}
+fn op_str(op: &Op) -> String {
+    match op {
+        Op::Insert(r) => format!("i{}{}{}", r.0, r.1, r.2),
+        Op::Get(p) => format!("g{}", p.iter().map(|d| d.to_string()).collect::<String>()),
+    }
+}
+fn hist_str(h: &[Op]) -> String {
+    h.iter().map(op_str).collect::<Vec<_>>().join(";")
+}
+pub fn alphabet() -> Vec<Op> {
+    let mut o: Vec<Op> = all_rows().into_iter().map(Op::Insert).collect();
+    for a in 0..2u8 {
+        o.push(Op::Get(vec![a]));
+        for b in 0..2u8 {
+            o.push(Op::Get(vec![a, b]));
+            for c in 0..2u8 {
+                o.push(Op::Get(vec![a, b, c]));
+            }
+        }
+    }
+    o
+}
+
+/// Structural reveal of the four tries through `GhtGet` (empty children created by `get` included).
+pub fn reveal4(f: &Forest) -> [Reveal; 4] {
+    let var_args!(t0, t1, t2, t3) = f;
+    [
+        leaf_rv!(t0, &0u8),
+        inner_rv!(t1, |c| leaf_rv!(c, &0u8)),
+        inner_rv!(t2, |c| inner_rv!(c, |d| leaf_rv!(d, &0u8))),
+        inner_rv!(t3, |c| inner_rv!(c, |d| inner_rv!(d, |e| leaf_rv!(e, &())))),
+    ]
+}
+
+/// rows of a reveal together with the key path they sit under; also flags structural nonsense
+fn walk(r: &Reveal, path: &mut Vec<u8>, out: &mut Vec<(Vec<u8>, Row)>, bad: &mut Vec<String>) {
+    match r {
+        Reveal::Leaf { rows, spurious } => {
+            if *spurious > 0 {
+                bad.push(format!("leaf under {path:?} answers iter()/get()"));
+            }
+            for row in rows {
+                out.push((path.clone(), *row));
+            }
+        }
+        Reveal::Inner { heads, children, spurious } => {
+            if *spurious > 0 {
+                bad.push(format!("inner node under {path:?} yields tuples"));
+            }
+            let ck: Vec<u8> = children.iter().map(|(h, _)| *h).collect();
+            if *heads != ck {
+                bad.push(format!("inner node under {path:?}: iter() lists {heads:?} but get() answers for {ck:?}"));
+            }
+            for (h, c) in children {
+                path.push(*h);
+                walk(c, path, out, bad);
+                path.pop();
+            }
+        }
+    }
+}
+
+fn do_insert(f: &mut Forest, r: Row) -> bool {
+    f.0.insert(var_expr!(r.0, r.1, r.2))
+}
+
+/// `ColtGet::get` along `path`; returns the rows held by the returned nodes.
+fn do_get(f: &mut Forest, path: &[u8]) -> Vec<Row> {
+    let k: Vec<&'static u8> = path.iter().map(|p| &K[*p as usize]).collect();
+    let g1 = ColtGet::get(f.as_mut_var(), k[0]);
+    if path.len() == 1 {
+        let var_args!(a, b, c) = g1;
+        let mut o = rows_of(&*a);
+        o.extend(rows_of(&*b));
+        o.extend(rows_of(&*c));
+        return o;
+    }
+    let g2 = ColtGet::get(g1, k[1]);
+    if path.len() == 2 {
+        let var_args!(a, b) = g2;
+        let mut o = rows_of(&*a);
+        o.extend(rows_of(&*b));
+        return o;
+    }
+    let g3 = ColtGet::get(g2, k[2]);
+    let var_args!(a) = g3;
+    rows_of(&*a)
+}
+
+fn contains4(f: &Forest, r: Row) -> [bool; 4] {
+    let var_args!(t0, t1, t2, t3) = f;
+    let rr = || var_expr!(&r.0, &r.1, &r.2);
+    [t0.contains(rr()), t1.contains(rr()), t2.contains(rr()), t3.contains(rr())]
+}
+
+fn model_items(m: &MModel) -> Vec<Row> {
+    let mut o = vec![];
+    for (r, c) in m {
+        for _ in 0..*c {
+            o.push(*r);
+        }
+    }
+    o
+}
+fn model_str(m: &MModel) -> String {
+    let parts: Vec<String> = m.iter().map(|(r, c)| format!("{}{}{}x{}", r.0, r.1, r.2, c)).collect();
+    format!("{{{}}}", parts.join(","))
+}
+
+type Sink<'a> = &'a mut dyn FnMut(&str, String);
+
+pub fn check_state(f: &Forest, m: &MModel, sink: Sink, st: &mut Stats) {
+    st.evaluations += 1;
+    let r = catch(|| {
+        let mut bad: Vec<(&'static str, String)> = vec![];
+        let rv = reveal4(f);
+        let var_args!(t0, t1, t2, t3) = f;
+        let iter_rows: [Vec<Row>; 4] = [rows_of(t0), rows_of(t1), rows_of(t2), rows_of(t3)];
+        let mut all: Vec<Row> = iter_rows.iter().flatten().cloned().collect();
+        all.sort();
+        if all != model_items(m) {
+            bad.push(("conservation/wrong", format!("the tries hold {all:?}, inserted were {:?}", model_items(m))));
+        }
+        for (i, r) in rv.iter().enumerate() {
+            let mut located = vec![];
+            let mut sbad = vec![];
+            walk(r, &mut vec![], &mut located, &mut sbad);
+            for s in sbad {
+                bad.push(("structure/wrong", format!("trie {i}: {s}")));
+            }
+            for (path, row) in &located {
+                let cols = [row.0, row.1, row.2];
+                if path.len() != i || path[..] != cols[..i] {
+                    bad.push(("structure/wrong", format!("trie {i}: row {row:?} sits under key path {path:?}")));
+                }
+            }
+            let mut a: Vec<Row> = located.iter().map(|(_, r)| *r).collect();
+            a.sort();
+            let mut b = iter_rows[i].clone();
+            b.sort();
+            if a != b {
+                bad.push(("recursive_iter/wrong", format!("trie {i}: recursive_iter {b:?} but the GhtGet walk finds {a:?}")));
+            }
+        }
+        for row in all_rows() {
+            let c = contains4(f, row);
+            for i in 0..4 {
+                if c[i] != iter_rows[i].contains(&row) {
+                    bad.push(("contains/wrong", format!("trie {i}: contains({row:?}) = {}, its rows are {:?}", c[i], iter_rows[i])));
+                }
+            }
+        }
+        bad
+    });
+    match r {
+        Ok(bad) => {
+            for (c, d) in bad {
+                sink(c, d);
+            }
+        }
+        Err(p) => sink("observe/panic", format!("observing the forest panicked: {p}")),
+    }
+}
+
+pub fn apply(f: &mut Forest, m: &mut MModel, op: &Op, sink: Sink, st: &mut Stats) {
+    st.evaluations += 1;
+    st.transitions += 1;
+    match op {
+        Op::Insert(r) => {
+            *m.entry(*r).or_insert(0) += 1;
+            if let Err(p) = catch(|| do_insert(f, *r)) {
+                sink("insert/panic", format!("insert({r:?}) panicked: {p}"));
+            }
+        }
+        Op::Get(path) => {
+            let mut want: Vec<Row> = model_items(m)
+                .into_iter()
+                .filter(|r| {
+                    let cols = [r.0, r.1, r.2];
+                    cols[..path.len()] == path[..]
+                })
+                .collect();
+            want.sort();
+            match catch(|| do_get(f, path)) {
+                Ok(mut got) => {
+                    got.sort();
+                    st.outcome(&("colt_get", path.len(), got.len()));
+                    if got != want {
+                        sink("get/wrong", format!("get{path:?} returns nodes holding {got:?}, inserted rows with that prefix: {want:?}"));
+                    }
+                }
+                Err(p) => sink("get/panic", format!("get{path:?} panicked: {p}")),
+            }
+        }
+    }
+}
+
+fn record(hist: &[Op], m: &MModel, hits: Vec<(String, String)>, order: (u64, u64), acc: &mut Acc) {
+    for (c, d) in hits {
+        acc.cl.hit(&format!("{NAME}/{c}"), order, || {
+            (
+                format!("history={}", hist_str(hist)),
+                format!("{NAME} after [{}] (inserted {}): {d}", hist_str(hist), model_str(m)),
+                json!({"shape": NAME, "kind": "history", "ops": hist.iter().map(op_json).collect::<Vec<_>>()}),
+            )
+        });
+    }
+}
+
+pub fn run(shape_idx: u64, _threads: usize) -> Acc {
+    let depth = 4;
+    let mut acc = Acc::new();
+    let ops = alphabet();
+    struct S {
+        f: Forest,
+        m: MModel,
+        hist: Vec<Op>,
+    }
+    let mut index: HashMap<[Reveal; 4], usize> = HashMap::new();
+    let mut states: Vec<S> = vec![];
+    let mut order = 0u64;
+    let root = S { f: Forest::default(), m: MModel::new(), hist: vec![] };
+    index.insert(reveal4(&root.f), 0);
+    let mut hits = vec![];
+    check_state(&root.f, &root.m, &mut |c, d| hits.push((c.to_string(), d)), &mut acc.st);
+    record(&root.hist, &root.m, hits, (shape_idx * 10, 0), &mut acc);
+    acc.st.states += 1;
+    states.push(root);
+    let mut frontier = 0usize;
+    for _round in 0..depth {
+        let n = states.len();
+        for s in frontier..n {
+            for op in &ops {
+                let mut f = states[s].f.clone();
+                let mut m = states[s].m.clone();
+                let mut hist = states[s].hist.clone();
+                hist.push(op.clone());
+                let mut hits = vec![];
+                apply(&mut f, &mut m, op, &mut |c, d| hits.push((c.to_string(), d)), &mut acc.st);
+                order += 1;
+                record(&hist, &m, hits, (shape_idx * 10 + 1, order), &mut acc);
+                // canon: the four tries' full GhtGet reveal (rows, heads, empty children). The only
+                // field not revealed is GhtLeaf::forced, which no code path reads.
+                let rv = reveal4(&f);
+                if index.contains_key(&rv) {
+                    continue;
+                }
+                index.insert(rv, states.len());
+                acc.st.states += 1;
+                acc.st.traces += 1;
+                acc.st.nontrivial(&(NAME, hist_str(&hist)));
+                let mut hits = vec![];
+                check_state(&f, &m, &mut |c, d| hits.push((c.to_string(), d)), &mut acc.st);
+                record(&hist, &m, hits, (shape_idx * 10, order), &mut acc);
+                states.push(S { f, m, hist });
+            }
+        }
+        frontier = n;
+    }
+    acc.count_n(&format!("{NAME}:states"), states.len() as u64);
+    acc
+}
+
+pub fn replay_case(case: &Value, verbose: bool) -> Classes {
+    let ops: Vec<Op> = case["ops"].as_array().expect("ops").iter().map(op_of).collect();
+    let mut acc = Acc::new();
+    let mut f = Forest::default();
+    let mut m = MModel::new();
+    let mut hist = vec![];
+    for op in &ops {
+        hist.push(op.clone());
+        let mut hits = vec![];
+        apply(&mut f, &mut m, op, &mut |c, d| hits.push((c.to_string(), d)), &mut acc.st);
+        check_state(&f, &m, &mut |c, d| hits.push((c.to_string(), d)), &mut acc.st);
+        if verbose {
+            println!("  {:8} -> tries hold {:?}", op_str(op), reveal4(&f).iter().map(|r| { let mut o = vec![]; walk(r, &mut vec![], &mut o, &mut vec![]); o.len() }).collect::<Vec<_>>());
+            for (c, d) in &hits {
+                println!("  observed: {c}: {d}");
+            }
+        }
+        record(&hist, &m, hits, (0, 0), &mut acc);
+    }
+    acc.cl
+}
